@@ -86,6 +86,25 @@ Definition bf (b : bfun) (l : list val) : list val :=
   | BHeader => VInt (-1) :: l
   end.
 
+(* side inputs (helpers/side_inputs.rs): the side value is a constant captured by the closure *)
+Inductive sfun := SFAddLen | SFAddSum.                 (* x -> x + |side| ; x -> x + sum(side) *)
+Definition sf (h : sfun) (side : list val) (v : val) : val :=
+  match h, v with
+  | SFAddLen, VInt z => VInt (z + Z.of_nat (length side))
+  | SFAddSum, VInt z => VInt (z + zsum side)
+  | _, _ => v
+  end.
+Inductive spred := SPIn | SPNotIn | SPLenGt (n : nat). (* allow-list ; block-list ; |side| > n *)
+Definition sp (q : spred) (side : list val) (v : val) : bool :=
+  match q with
+  | SPIn => existsb (val_eqb v) side
+  | SPNotIn => negb (existsb (val_eqb v) side)
+  | SPLenGt n => Nat.ltb n (length side)
+  end.
+(* side_hashmap(pairs): a HashMap built by collect(): for a repeated key the LAST pair wins *)
+Definition side_lookup (pairs : list val) (dflt : Z) (v : val) : val :=
+  fold_left (fun acc kv => if val_eqb (vfst kv) v then vsnd kv else acc) pairs (VInt dflt).
+
 (* ---------- total order on values (derived Ord of the harness's `Val`) ---------- *)
 Definition vrank (v : val) : nat :=
   match v with VInt _ => 0 | VPair _ _ => 1 | VList _ => 2 | VNone => 3 | VSome _ => 4 end%nat.
@@ -180,6 +199,7 @@ Definition TJF := 7%nat.     (* (Val, (Option<Val>, Option<Val>)) *)
 Definition TKW := 8%nat.     (* (Val, Wrapped) : a second value type, to exercise retyping *)
 Definition TDUMMY := 9%nat.  (* u8 : the dummy source of a join *)
 Definition TL := 10%nat.     (* Vec<Val> as an element (DistinctSet output) *)
+Definition TRES := 11%nat.   (* Result<Val, String> : the output of try_map *)
 
 (* ---------- steps: one constructor per public transform ---------- *)
 Inductive step :=
@@ -203,7 +223,13 @@ Inductive step :=
 | SDistinctPerKey                      (* KV -> KV : gbk + combine_values_lifted + flat_map *)
 | STopKPerKey (k : nat)                (* KV -> KG *)
 | SGroupValuesToList                   (* KG -> KV : (k, vs) -> (k, List vs) ; a MapOp *)
-| SJoin (kind : join_kind) (rsteps : list step) (rdata : list val).
+| SJoin (kind : join_kind) (rsteps : list step) (rdata : list val)
+| SMapWithSide (side : list val) (h : sfun)            (* U -> U : map_with_side *)
+| SFilterWithSide (side : list val) (q : spred)        (* any shape : filter_with_side *)
+| SMapWithSideMap (pairs : list val) (dflt : Z)        (* U -> U : map_with_side_map, lookup or default *)
+| STryMap (f : efun) (p : pfun).                       (* U -> Result : try_map, Ok (f x) when p x, else Err;
+                                                          Ok v is VSome v, Err is VNone. Only as the
+                                                          LAST step (the harness converts after collecting) *)
                                        (* KV x KV -> KV : join then (k,(v,w)) -> (k, Pair v w) *)
 
 (* the second (right) source of a join is always a from_vec of (Val, Val) rows *)
@@ -282,6 +308,11 @@ Fixpoint compile_steps (fuel : nat) (steps : list step) (s : cstate) : cstate :=
                                (cs_tag s) (cs_tag rs) (join_tag kind) in
             push_op {| cs_chain := [dummy; cg]; cs_tag := join_tag kind; cs_uid := cs_uid rs |}
                     (op_map (join_tag kind) TKV join_norm) TKV
+        | SMapWithSide side h => push_op s (op_map t TU (sf h side)) TU
+        | SFilterWithSide side q => push_op s (op_filter t (sp q side)) t
+        | SMapWithSideMap pairs dflt => push_op s (op_map t TU (side_lookup pairs dflt)) TU
+        | STryMap f p =>
+            push_op s (op_map t TRES (fun x => if pf p x then VSome (ef f x) else VNone)) TRES
         end in
       compile_steps fuel' rest s'
   end
